@@ -1,6 +1,6 @@
 """C07 — fair semaphore serves requests in arrival order (structure)."""
 from rl import (entry_methods, loc_endswith, path_cond, trace_summary, where, const_of, fmt_val)
-from common import fifo_ends, own_node_roots
+from common import fifo_ends, own_node_roots, fair_no_requeue, sem_fair_J, cmp_fact
 from typestate import check_typestate
 from props.c06 import find_wakeup_fn
 
@@ -27,7 +27,8 @@ def run(C, R):
                      'mode only the tail is ever notified: C06.R5/R4 below); R2 the zero-permit disjunct exists, so '
                      'such requests complete immediately even behind waiters; R3 FIFO ends: add_front / tail '
                      'access only; R4 the fair wake-up walk notifies at most the tail and leaves it linked '
-                     '(typestate: Notified linked iff fair).  Order preservation of LinkedList::remove is assumed '
+                     '(typestate: Notified linked iff fair); R5 on a path that can be fair the own node is enqueued only '
+                     'when it entered in state New (a queued waiter never re-enters behind later arrivals).  Order preservation of LinkedList::remove is assumed '
                      '(C20).')
     R.trusted += ['rustc nightly MIR', 'queue-op summaries (C20)', 'lock_api::Mutex']
     R.assumptions += ['order preservation of LinkedList::remove is assumed (C20 summary)']
@@ -39,7 +40,18 @@ def run(C, R):
         R.configs.append(cfg)
         nsub = 0
         nq = 0
+        nins = 0
         zero = 0
+        _nJ, badJ = sem_fair_J(E, F, find_wakeup_fn(F, E), E.run)
+
+        def excluded(path, root, badJ=badJ):
+            # J: fair & Notified => permits >= required.  A path on which the own node enters Notified and its request
+            # does not fit is infeasible when J is inductive (notification half evaluated here, shrink half = R1)
+            req = ('init', root + ('data', 'required_permits'))
+            if path.facts.get(('discr', ('init', root + ('data', 'state')))) == ('eq', 'Notified') and \
+                    cmp_fact(E, path.facts, 'Lt', ('init', (('P', 'self'), 'permits')), req) == 1 and not badJ:
+                return 'fair & Notified => request fits (notification only under the fit test)'
+            return None
         for m in entry_methods(F, CG, STATE):
             paths = E.run(m['path'])
             R.add_paths(m['path'], len(paths))
@@ -64,9 +76,11 @@ def run(C, R):
                                    '%s takes permits on a path that can be a fair semaphore with other waiters '
                                    'queued, a non-zero request and an own node that is not the notified head [%s]'
                                    % (m['path'], path_cond(E, path)), where(F, e), {'trace': trace_summary(path)})
+            nins += fair_no_requeue(R, E, F, m, paths, owns, 'C07.R5', 'semaphore', excluded)
             nq += fifo_ends(R, E, F, m, paths, 'C07.R3')
             check_typestate(R, E, F, roles, STATE, m, paths, 'C07.R4')
         R.floor('C07.R1 subtraction-paths[%s]' % cfg, nsub, 5)
+        R.floor('C07.R5 enqueue-paths[%s]' % cfg, nins, 1)
         if zero >= 1:
             R.ok('C07.R2', 'zero-permit-path-exists')
         else:
